@@ -39,19 +39,22 @@ inductive Bound where
 /-- public entry points that must enforce a rule -/
 inductive ApiEntry where
   | addrSend | addrCall | addrSender | addrWeakSender | addrCaller | addrWeakCaller
+  | owningSend | owningCall
   | ctxWeakSender | ctxWeakCaller
   | ctxInterval | ctxIntervalWith | ctxDelayedSend
   | ctxRegisterChild | ctxSendToChildren
   | ctxSubscribe | ctxPublish | brokerPublish | brokerSubscribe
   | addrRestart | ctxRestart
   | withStream | recreateFromDefault
+  | builderOnStream | builderBoundedOnStream
   deriving Repr, DecidableEq
 
 def ApiEntry.all : List ApiEntry :=
-  [.addrSend, .addrCall, .addrSender, .addrWeakSender, .addrCaller, .addrWeakCaller, .ctxWeakSender,
+  [.addrSend, .addrCall, .addrSender, .addrWeakSender, .addrCaller, .addrWeakCaller, .owningSend, .owningCall,
+   .ctxWeakSender,
    .ctxWeakCaller, .ctxInterval, .ctxIntervalWith, .ctxDelayedSend, .ctxRegisterChild, .ctxSendToChildren,
    .ctxSubscribe, .ctxPublish, .brokerPublish, .brokerSubscribe, .addrRestart, .ctxRestart, .withStream,
-   .recreateFromDefault]
+   .recreateFromDefault, .builderOnStream, .builderBoundedOnStream]
 
 structure Use where
   entry : ApiEntry
@@ -75,13 +78,14 @@ def accepts (bounds : ApiEntry → List Bound) (u : Use) : Bool := (bounds u.ent
 /-- which entry points talk to an actor type about a message type (rule: a handler must exist) -/
 def ApiEntry.needsHandler : ApiEntry → Bool
   | .addrSend | .addrCall | .addrSender | .addrWeakSender | .addrCaller | .addrWeakCaller
+  | .owningSend | .owningCall
   | .ctxWeakSender | .ctxWeakCaller | .ctxInterval | .ctxIntervalWith | .ctxDelayedSend
   | .ctxSubscribe => true
   | _ => false
 
 /-- fire-and-forget paths (send, Sender, broker topics, timers, children) -/
 def ApiEntry.fireAndForget : ApiEntry → Bool
-  | .addrSend | .addrSender | .addrWeakSender | .ctxWeakSender | .ctxInterval | .ctxIntervalWith
+  | .addrSend | .owningSend | .addrSender | .addrWeakSender | .ctxWeakSender | .ctxInterval | .ctxIntervalWith
   | .ctxDelayedSend | .ctxRegisterChild | .ctxSendToChildren | .ctxSubscribe | .ctxPublish
   | .brokerPublish | .brokerSubscribe => true
   | _ => false
@@ -92,17 +96,19 @@ def Legit (u : Use) : Prop :=
   (u.entry.fireAndForget = true → u.msg.unitResponse = true) ∧
   ((u.entry = .addrRestart ∨ u.entry = .ctxRestart) → u.actor.restartable = true) ∧
   (u.entry = .withStream → u.state = .nonRestartable ∧ u.actor.streamItems.contains u.item = true) ∧
-  (u.entry = .recreateFromDefault → u.actor.hasDefault = true ∧ u.actor.restartable = true)
+  (u.entry = .recreateFromDefault → u.actor.hasDefault = true ∧ u.actor.restartable = true) ∧
+  ((u.entry = .builderOnStream ∨ u.entry = .builderBoundedOnStream) → u.actor.streamItems.contains u.item = true)
 
 /-- the bounds each entry point has to carry for the rules to be enforced -/
 def required : ApiEntry → List Bound
-  | .addrSend | .addrSender | .addrWeakSender | .ctxWeakSender | .ctxInterval | .ctxIntervalWith
+  | .addrSend | .owningSend | .addrSender | .addrWeakSender | .ctxWeakSender | .ctxInterval | .ctxIntervalWith
   | .ctxDelayedSend | .ctxSubscribe => [.handler, .unitResponse]
-  | .addrCall | .addrCaller | .addrWeakCaller | .ctxWeakCaller => [.handler]
+  | .owningCall | .addrCall | .addrCaller | .addrWeakCaller | .ctxWeakCaller => [.handler]
   | .ctxRegisterChild | .ctxSendToChildren | .ctxPublish | .brokerPublish | .brokerSubscribe => [.unitResponse]
   | .addrRestart | .ctxRestart => [.restartable]
   | .withStream => [.nonRestartableState, .streamHandler]
   | .recreateFromDefault => [.default, .restartable]
+  | .builderOnStream | .builderBoundedOnStream => [.streamHandler]
 
 def wellWired19b (bounds : ApiEntry → List Bound) : Bool :=
   ApiEntry.all.all (fun e => (required e).all (fun b => (bounds e).contains b))
